@@ -57,7 +57,7 @@ def run(chk):
 
     # ---------------- (b) real GQR runs replayed by the model from their own norms, (c) the counts
     for _ in range(500 if thorough else 110):
-        B, n, m, N, L, s = R.gen_region_case(rng, *((12, 7) if thorough else (9, 5)), graded=0.25)
+        B, n, m, N, L, s = R.gen_region_case(rng, *((12, 7) if thorough else (9, 5)), graded=0.25, tiny=0.15)
         if rng.random() < 0.3:
             # numerically rank-deficient basis (rank < N possible): residuals become rounding-level; the counts are then outside
             # the property's feasibility clause, but SSPOR must still hand back GQR's own first N sensors
